@@ -229,7 +229,7 @@ pub fn tick(slot: &Option<std::sync::Arc<AtomicU64>>) {
 
 static WD_NEXT: AtomicU64 = AtomicU64::new(1);
 static WD_ON: AtomicBool = AtomicBool::new(false);
-pub static WD_LIMIT_S: AtomicU64 = AtomicU64::new(30);
+pub static WD_LIMIT_S: AtomicU64 = AtomicU64::new(120);
 
 pub struct WdGuard(u64);
 
